@@ -305,6 +305,18 @@ func TestF25(t *testing.T) {
 	}
 }
 
+// F26 (C18, repaired by 051c4b6): a hosts-file comment introduced by "##" after a tab was taken
+// for element-hiding syntax and the line was rejected.
+func TestF26(t *testing.T) {
+	for _, line := range []string{"0.0.0.0 example.org\t## phishing", "0.0.0.0\texample.org\t##phishing", "example.org\t## note"} {
+		r, err := rules.NewRule(line, 1)
+		hr, ok := r.(*rules.HostRule)
+		if err != nil || !ok || len(hr.Hostnames) != 1 || hr.Hostnames[0] != "example.org" {
+			t.Errorf("%q: rule %T, err %v", line, r, err)
+		}
+	}
+}
+
 // F21 (C06, recorded, not repaired): a $urlblock and a $genericblock exception matching the
 // referrer tie in priority; the one listed first becomes the document rule, so a
 // domain-specific blocking rule is suppressed under one order of the rules and blocks under
